@@ -45,7 +45,7 @@ func (g *G) relaySpec(name string) *SpecD {
 			}
 		}
 		if g.P(1, 10) {
-			act.Ops = append(act.Ops, []interface{}{"fail", "boom:" + name})
+			act.Ops = append(act.Ops, []interface{}{"fail", g.boom()})
 		}
 		s.Nodes[rn] = &NodeD{Action: act, Branching: &BranchingD{Type: "bindings", Branches: []BranchD{{Target: "listen"}}}}
 	}
